@@ -181,9 +181,13 @@ var _ = fmt.Sprint
 // Absent and no-op sub-encoders: a column appears exactly when its key is set and its encoder writes
 // something (the name falls back to the full name when its encoder is nil; the function needs no encoder).
 //
-//verif: prop=C16 bounds="console EncodeEntry with all keys set: each of the level/time/name/caller encoders in {nil, no-op, built-in} (full product) x caller defined or not x name set or not; columns and their order against the reference; default separator"
+//verif: prop=C16 bounds="console EncodeEntry with all keys set: each of the level/time/name/caller encoders in {nil, no-op, built-in} (full product) x caller defined or not x name set or not; message key set or not; tab or a multi-byte separator; columns and their order against the reference"
 func VC16Encoders() {
-	cfg := EncoderConfig{LevelKey: "L", TimeKey: "T", NameKey: "N", CallerKey: "C", FunctionKey: "F", MessageKey: "M", StacktraceKey: "S", LineEnding: "\n"}
+	sep := []string{"\t", "<->"}[vrt.Choice("sep", 2)]
+	cfg := EncoderConfig{LevelKey: "L", TimeKey: "T", NameKey: "N", CallerKey: "C", FunctionKey: "F", MessageKey: "M", StacktraceKey: "S", LineEnding: "\n", ConsoleSeparator: sep}
+	if vrt.Choice("msgkey", 2) == 1 {
+		cfg.MessageKey = ""
+	}
 	le, te, ne, ce := vrt.Choice("levelenc", 3), vrt.Choice("timeenc", 3), vrt.Choice("nameenc", 3), vrt.Choice("callerenc", 3)
 	switch le {
 	case 1:
@@ -229,6 +233,6 @@ func VC16Encoders() {
 		}
 		cols = kept
 	}
-	vConsoleCheck(out, "\t", cols, root, "", "\n")
+	vConsoleCheck(out, sep, cols, root, "", "\n")
 	vrt.Cover("done")
 }
